@@ -240,13 +240,43 @@ def selectors(R, C, rng, full):
     return out
 
 
+def numpy_ints(only=None):
+    import numpy
+    from pyplate import Plate
+    fails = []
+    for shape in ((2, 3), (8, 12)):
+        plate = Plate('p', '1 mL', rows=shape[0], columns=shape[1])
+        names = lambda s: [w.name for w in numpy.asarray(s.get()).flatten()]
+        for i in (0, 1, 2, shape[0]):
+            for j in (None, 1, shape[1]):
+                for ty in (numpy.int64, numpy.int32):
+                    if only and [list(shape), i, j, ty.__name__] != only:
+                        continue
+                    plain = (i,) if j is None else (i, j)
+                    sel = tuple(ty(x) for x in plain)
+                    try:
+                        want = ('ok', names(plate[plain if len(plain) > 1 else plain[0]]))
+                    except Exception as e:  # noqa
+                        want = ('exc', common.exc_class(e))
+                    try:
+                        got = ('ok', names(plate[sel if len(sel) > 1 else sel[0]]))
+                    except Exception as e:  # noqa
+                        got = ('exc', common.exc_class(e))
+                    if got[0] == 'ok' and got != want:
+                        fails.append((f"plate {shape}: selector {tuple(int(x) for x in sel)} given as {ty.__name__} selects {got[1][:4]}, the plain ints "
+                                      f"{'select ' + str(want[1][:4]) if want[0] == 'ok' else 'are refused (' + want[1] + ')'}",
+                                      {'kind': 'numpy-int', 'case': [list(shape), i, j, ty.__name__]}))
+    return fails
+
+
 def plates(tier):
     P = []
     shapes = [(r, c) for r in range(1, 5) for c in range(1, 5)] if tier == 'thorough' else [(1, 1), (2, 3), (3, 2), (4, 4), (1, 4), (3, 1)]
     for r, c in shapes:
         P.append(('int', r, c))
     P += [('custom', ['x', 'y', 'z'], ['a', 'b']), ('custom', ['r1', 'r2'], ['3', '1', '2']), ('custom', ['2', '1'], ['c1', 'c2', 'c3']),
-          ('custom', ['B', 'A', 'C'], ['7', '8', '9', '10']), ('int', 27, 1), ('int', 28, 2)]
+          ('custom', ['B', 'A', 'C'], ['7', '8', '9', '10']), ('custom', ['no enzyme', 'enzyme +'], ['0.1 uM', '7.5', 'a-b']),     # labels with blanks, dots, signs
+          ('int', 27, 1), ('int', 28, 2)]
     if tier == 'thorough':
         P += [('int', 60, 1), ('int', 703, 1)]
     return P
@@ -385,6 +415,10 @@ def run(chk, gate, status):
                                'impl': str(impl), 'model': str(m)}, found_input=False)
         if idx % 4001 == 0 and len(samples) < 4:
             samples.append({'plate': str(pd)[:80], 'selector': repr(py_sel(d)), 'impl': str(impl)[:120], 'model': str(m)[:120]})
+    # integers of another integer type (numpy scalars, as produced by numpy.arange): refused, or the wells the plain ints select
+    for msg, doc in numpy_ints()[:3]:
+        nfail += 1
+        chk.violation(msg, doc)
     if errors or lab_err:
         chk.violation('model evaluation failed: ' + (errors + lab_err)[0][:300], {'relation': 'coq_eval C13'}, found_input=False)
     chk.assumptions += ["the string level of 'A:1' (splitting on ':') is glue of the harness; the model starts from the two parts",
@@ -392,12 +426,23 @@ def run(chk, gate, status):
     return {'evaluations': len(cases) + len(lab_plates), 'programs': len(cases), 'distinct_nontrivial': len(nontrivial), 'rule': RULE,
             'exhaustive': True,
             'exhaustive_bound': ('thorough: every selector form with ints -1..n+1, every label + 2 foreign labels, every None/int/label slice end, steps {None,1,2,3,0,-1,-2}, '
-                                 'lists up to 3, on all plates <= 4x4 + 4 custom labelings + 27x1, 28x2, 60x1, 703x1; slice x slice pairs stratified' if full else
-                                 'quick: the same forms on 6 shapes + 4 custom labelings + 27x1, 28x2 with reduced slice-end sets; slice x slice pairs stratified'),
+                                 'lists up to 3, on all plates <= 4x4 + 5 custom labelings + 27x1, 28x2, 60x1, 703x1; slice x slice pairs stratified' if full else
+                                 'quick: the same forms on 6 shapes + 5 custom labelings + 27x1, 28x2 with reduced slice-end sets; slice x slice pairs stratified'),
             'disagreements_checked': ndis, 'oracle_failures': nfail, 'samples': samples, 'generator_distribution': dist}
 
 
 def replay(path):
+    r0 = json.load(open(path))
+    if r0.get('kind') == 'numpy-int':
+        f = numpy_ints(only=r0['case'])
+        for msg, _ in f:
+            print('PROPERTY FAILS:', msg)
+        print('property', 'FAILS' if f else 'HOLDS', 'on this input')
+        return 1 if f else 0
+    return replay_(path)
+
+
+def replay_(path):
     r = json.load(open(path))
     print(json.dumps(r, indent=1)[:2000])
     if 'selector' not in r:
